@@ -162,4 +162,180 @@ theorem step_eq (N : Nat) (hN : 0 < N) (s : RsiState α) (v : α) :
       simp only [h2, if_true, if_false, List.length_append, List.length_singleton] <;>
       (split <;> [rfl; (split <;> simp_all [bind, Except.bind, pure, Except.pure])])
 
+/-- everything but the published output -/
+structure PInv (N : Nat) (s : RsiState α) (xs : List α) : Prop where
+  hq : s.q = lastN N xs
+  hlast : s.lastVal = (xs.getLast?).getD 0
+  hW : lastN N (changes xs) = diffs s.oldRef s.q
+  hg : s.avgGain = sumL ((diffs s.oldRef s.q).map (gpart N))
+  hl : s.avgLoss = sumL ((diffs s.oldRef s.q).map (lpart N))
+
+theorem gpart_lpart_zero (N : Nat) : gpart (α := α) N 0 = 0 ∧ lpart (α := α) N 0 = 0 := by
+  simp [gpart, lpart, absv]
+
+theorem getLast_lastN (N : Nat) (hN : 0 < N) (xs : List α) : (lastN N xs).getLast? = xs.getLast? := by
+  simp only [lastN]
+  rw [List.getLast?_drop]
+  split
+  · rename_i h
+    have : xs = [] := by
+      cases xs with
+      | nil => rfl
+      | cons a l => simp at h; omega
+    subst this; rfl
+  · rfl
+
+/-- reset / evict / push keep the accumulators equal to the per-change contributions of the change window -/
+theorem push_pinv (N : Nat) (hN : 0 < N) (s : RsiState α) (xs : List α) (x : α) (h : Inv N s xs) :
+    PInv N (push N (if N ≤ (reset s x).q.length then evict N (reset s x) else reset s x) x) (xs ++ [x]) := by
+  obtain ⟨hq, hlast, hW, hg, hl, hout⟩ := h
+  by_cases h0 : xs = []
+  · -- very first value
+    subst h0
+    have hq0 : s.q = [] := by simpa using hq
+    have hr : reset s x = { s with oldRef := x, lastVal := x } := by simp [reset, hq0]
+    have hnf : ¬ N ≤ (reset s x).q.length := by rw [hr]; simp [hq0]; omega
+    rw [if_neg hnf, hr]
+    have hg0 : s.avgGain = 0 := by rw [hg, hq0]; simp [diffs]
+    have hl0 : s.avgLoss = 0 := by rw [hl, hq0]; simp [diffs]
+    simp only [push, sub_self, lt_irrefl, if_false, hq0, List.nil_append]
+    refine ⟨?_, by simp, ?_, ?_, ?_⟩
+    · show [x] = lastN N ([] ++ [x])
+      rw [lastN_of_le N _ (by simp; omega)]; rfl
+    · show lastN N (changes ([] ++ [x])) = diffs x [x]
+      have : changes ([] ++ [x]) = [(0 : α)] := by simp [changes]
+      rw [this, lastN_of_le N _ (by simp; omega)]; simp [diffs]
+    · simp [diffs, hg0, (gpart_lpart_zero (α := α) N).1]
+    · simp [diffs, hl0, (gpart_lpart_zero (α := α) N).2, absv]
+  · have hqne : s.q ≠ [] := by
+      intro h; rw [hq] at h
+      have h1 := congrArg List.length h; rw [lastN_length] at h1
+      have h2 : 0 < xs.length := List.length_pos_of_ne_nil h0
+      have h3 : 0 < min N xs.length := Nat.lt_min.mpr ⟨hN, h2⟩
+      rw [h1] at h3; simp at h3
+    have hr : reset s x = s := by
+      simp only [reset]; rw [if_neg]; simpa using hqne
+    rw [hr]
+    have hqlast : s.q.getLast? = xs.getLast? := by rw [hq, getLast_lastN N hN]
+    have hchs : changes (xs ++ [x]) = changes xs ++ [x - s.lastVal] := by rw [changes_snoc xs x h0, hlast]
+    have hWlen : (lastN N (changes xs)).length = s.q.length := by rw [hW]; simp
+    by_cases hfull : N ≤ s.q.length
+    · rw [if_pos hfull]
+      cases hqe : s.q with
+      | nil => exact absurd hqe hqne
+      | cons old rest =>
+        have hWe : lastN N (changes xs) = (old - s.oldRef) :: diffs old rest := by rw [hW, hqe]; rfl
+        have hW' : lastN N (changes (xs ++ [x])) = diffs old rest ++ [x - s.lastVal] := by
+          rw [hchs, lastN_snoc_full N _ _ hN (by rw [hWlen]; exact hfull), hWe]; rfl
+        have hlv : s.lastVal = (rest.getLast?).getD old := by
+          rw [hlast, ← hqlast, hqe]
+          cases rest with
+          | nil => simp
+          | cons r0 r' => simp [List.getLast?_cons_cons, List.getLast?_eq_getLast_of_ne_nil]
+        have hd : diffs old (rest ++ [x]) = diffs old rest ++ [x - s.lastVal] := by rw [diffs_snoc, hlv]
+        have hqx : lastN N (xs ++ [x]) = rest ++ [x] := by
+          rw [lastN_snoc_full N xs x hN (by rw [← hq]; exact hfull), ← hq, hqe]; rfl
+        have hgs : s.avgGain = gpart N (old - s.oldRef) + sumL ((diffs old rest).map (gpart N)) := by
+          rw [hg, hqe]; simp [diffs]
+        have hls : s.avgLoss = lpart N (old - s.oldRef) + sumL ((diffs old rest).map (lpart N)) := by
+          rw [hl, hqe]; simp [diffs]
+        simp only [evict, hqe]
+        by_cases hc : 0 < old - s.oldRef <;> by_cases hc2 : 0 < x - s.lastVal <;>
+          simp only [push, hc, hc2, if_true, if_false] <;>
+          refine ⟨by simp [hqx], by simp, by simp only []; rw [hW', hd], ?_, ?_⟩ <;>
+          simp only [hd, List.map_append, sumL_append, List.map_cons, List.map_nil, sumL_cons, sumL_nil, hgs, hls,
+            gpart, lpart, hc, hc2, if_true, if_false] <;> ring
+    · rw [if_neg hfull]
+      have hlt : s.q.length < N := by omega
+      have hqxs : s.q = xs := by
+        rw [hq]; apply lastN_of_le
+        have := lastN_length N xs; rw [← hq] at this; omega
+      have hW' : lastN N (changes (xs ++ [x])) = diffs s.oldRef s.q ++ [x - s.lastVal] := by
+        rw [hchs, lastN_snoc_lt N _ _ (by rw [hWlen]; exact hlt), hW]
+      have hlv : s.lastVal = (s.q.getLast?).getD s.oldRef := by
+        rw [hlast, hqlast]
+        obtain ⟨a, l, rfl⟩ := List.exists_cons_of_ne_nil h0
+        simp [List.getLast?_eq_getLast_of_ne_nil]
+      have hd : diffs s.oldRef (s.q ++ [x]) = diffs s.oldRef s.q ++ [x - s.lastVal] := by rw [diffs_snoc, hlv]
+      have hqx : lastN N (xs ++ [x]) = s.q ++ [x] := by
+        rw [lastN_snoc_lt N xs x (by rw [← hq]; exact hlt), ← hq]
+      by_cases hc2 : 0 < x - s.lastVal <;>
+        simp only [push, hc2, if_true, if_false] <;>
+        refine ⟨by simp [hqx], by simp, by simp only []; rw [hW', hd], ?_, ?_⟩ <;>
+        simp only [hd, List.map_append, sumL_append, List.map_cons, List.map_nil, sumL_cons, sumL_nil, hg, hl,
+          gpart, lpart, hc2, if_true, if_false] <;> ring
+
+theorem emit_inv (N : Nat) (hN : 0 < N) (t : RsiState α) (xs : List α) (x : α) (h : PInv N t (xs ++ [x]))
+    (hout : t.out = Spec.rsi N xs) : Inv N (emit N t) (xs ++ [x]) := by
+  obtain ⟨hq, hlast, hW, hg, hl⟩ := h
+  have hN0 : (N : α) ≠ 0 := by exact_mod_cast hN.ne'
+  have hlen : t.q.length = min N (xs.length + 1) := by rw [hq, lastN_length]; simp
+  have hG : t.avgGain = Spec.gains N (xs ++ [x]) / (N : α) := by rw [hg, gsum, ← hW]; rfl
+  have hL : t.avgLoss = Spec.losses N (xs ++ [x]) / (N : α) := by rw [hl, lsum, ← hW]; rfl
+  by_cases hlt : t.q.length < N
+  · have hx : xs.length + 1 < N := by
+      rcases Nat.lt_or_ge (xs.length + 1) N with h | h
+      · exact h
+      · rw [Nat.min_eq_left h] at hlen; omega
+    have e : emit N t = t := by simp [emit, hlt]
+    rw [e]
+    refine ⟨hq, hlast, hW, hg, hl, ?_⟩
+    rw [hout]
+    have h1 : xs.length < N := by omega
+    simp [Spec.rsi, h1, hx]
+  · have hx : N ≤ xs.length + 1 := by
+      rcases Nat.lt_or_ge (xs.length + 1) N with h | h
+      · rw [Nat.min_eq_right (Nat.le_of_lt h)] at hlen; omega
+      · exact h
+    have hguard : ¬ ((xs ++ [x]).length < N || (xs ++ [x]).isEmpty) := by simp; omega
+    have hGn := gains_nonneg N (xs ++ [x])
+    have hLn := losses_nonneg N (xs ++ [x])
+    by_cases hz : t.avgLoss = 0
+    · have hL0 : Spec.losses N (xs ++ [x]) = 0 := by
+        rw [hL] at hz; exact (div_eq_zero_iff.mp hz).resolve_right hN0
+      have e : emit N t = { t with out := some 100 } := by simp [emit, hlt, hz]
+      rw [e]
+      refine ⟨hq, hlast, hW, hg, hl, ?_⟩
+      simp only [Spec.rsi, hguard, if_false, hL0]; simp
+    · have hL0 : Spec.losses N (xs ++ [x]) ≠ 0 := by
+        intro h0; apply hz; rw [hL, h0]; simp
+      have e : emit N t = { t with out := some (100 - 100 / (1 + t.avgGain / t.avgLoss)) } := by simp [emit, hlt, hz]
+      rw [e]
+      refine ⟨hq, hlast, hW, hg, hl, ?_⟩
+      have hLb : (Spec.losses N (xs ++ [x]) == nat 0) = false := by simpa using hL0
+      simp only [Spec.rsi, hguard, if_false, hLb, Bool.false_eq_true, nat_eq, Nat.cast_ofNat, hG, hL]
+      congr 1
+      rw [rsi_formula N hN _ _ hGn hLn hL0]; simp [hL0]
+
+theorem step_ok (N : Nat) (hN : 0 < N) (s : RsiState α) (xs : List α) (x : α) (h : Inv N s xs) :
+    ∃ s', (rsiCore N).step s x = .ok s' ∧ Inv N s' (xs ++ [x]) := by
+  refine ⟨_, step_eq N hN s x, ?_⟩
+  apply emit_inv N hN _ xs x (push_pinv N hN s xs x h)
+  -- the published output is untouched by reset / evict / push
+  have hout := h.hout
+  have e : ∀ t : RsiState α, (push N t x).out = t.out := by
+    intro t; simp only [push]; split <;> rfl
+  have e2 : ∀ t : RsiState α, (evict N t).out = t.out := by
+    intro t; simp only [evict]; split
+    · rfl
+    · split <;> rfl
+  have e3 : (reset s x).out = s.out := by simp only [reset]; split <;> rfl
+  rw [e]; split
+  · rw [e2, e3, hout]
+  · rw [e3, hout]
+
+/-- **Rsi = 100·G/(G+L) (100 when L = 0) over the N most recent changes, from the N-th value on** -/
+theorem outAfter_eq (N : Nat) (hN : 0 < N) (xs : List α) :
+    (rsiCore (α := α) N).outAfter xs = .ok (Spec.rsi N xs) :=
+  Core.outAfter_of_inv _ (Inv N) (Spec.rsi N)
+    (Core.run_invariant_init (rsiCore N) (Inv N) (init_inv N) (fun s pre x h => step_ok N hN s pre x h))
+    (fun s xs h => by simp [rsiCore, h.hout, pure, Except.pure]) xs
+
+theorem size_le (N : Nat) (hN : 0 < N) (xs : List α) (s : RsiState α)
+    (h : (rsiCore (α := α) N).run (rsiCore (α := α) N).init xs = .ok s) : (rsiCore (α := α) N).size s ≤ N := by
+  obtain ⟨s', hs, hi⟩ := Core.run_invariant_init (rsiCore N) (Inv N) (init_inv N) (fun s pre x h => step_ok N hN s pre x h) xs
+  rw [h] at hs; cases hs
+  show s.q.length ≤ N
+  rw [hi.hq]; exact lastN_length_le N xs
+
 end SF.Rsi
